@@ -620,16 +620,16 @@ def gen_guard_exhaustive(prefix):
 
 def gen(rng, tier):
     q = tier == "quick"
-    cases = gen_cap_sweep(7 if q else 9, "cap")
+    cases = gen_cap_sweep(7 if q else 8, "cap")      # thorough sizes keep the run within ~20 min (the journal model keeps one cell per number)
     cases += gen_guard_exhaustive("g3-")
     cases += gen_many_ranges(rng, 40 if q else 300, "mr")
     cases += gen_drained(rng, 30 if q else 300, "dr")
-    cases += [gen_rcvd_case(rng, "r%d" % i) for i in range(1500 if q else 30000)]
-    cases += [gen_rcvd_case(rng, "rb%d" % i, big=True) for i in range(6 if q else 80)]
-    cases += [gen_sent_case(rng, "s%d" % i) for i in range(1500 if q else 30000)]
-    cases += [gen_sent_case(rng, "su%d" % i, undisciplined=True) for i in range(300 if q else 5000)]
+    cases += [gen_rcvd_case(rng, "r%d" % i) for i in range(1500 if q else 10000)]
+    cases += [gen_rcvd_case(rng, "rb%d" % i, big=True) for i in range(6 if q else 30)]
+    cases += [gen_sent_case(rng, "s%d" % i) for i in range(1500 if q else 10000)]
+    cases += [gen_sent_case(rng, "su%d" % i, undisciplined=True) for i in range(300 if q else 2000)]
     # mixed: both journals in one case (they share only the clock)
-    for i in range(200 if q else 4000):
+    for i in range(200 if q else 1500):
         a = gen_rcvd_case(rng, "x", False)
         b = gen_sent_case(rng, "y", False)
         ops = []
